@@ -5,6 +5,7 @@ import EG.Trav
 import EG.TravOps
 import EG.StepX
 import EG.Single
+import EG.SingleCfg
 import EG.Pickle
 /-
   Main — line-protocol driver of the mirror model M.
@@ -74,16 +75,6 @@ structure DState where
   w : World := World.init
   ts : Sg.TS := {}
   ss : Sg.SS := {}
-
-/-- fixed configuration of the semi-singleton classes used by the harness
-    (harness/adapter.py builds the same): classes 0,1,2 share metaclass 0 (1 is a subclass of 0),
-    class 3 has its own metaclass 1, classes 4,5 (5 a subclass of 4) use metaclass 2 with a
-    custom hash function -/
-def ssCfg : Sg.SSCfg where
-  mapOf := fun c => if c ≤ 2 then 0 else if c = 3 then 1 else 2
-  keyOf := fun m a =>
-    if m = 2 then [0, 1, 1, 1, 1, 1, 2, 2, 2, 1, 1, 1, 1].getD a 9      -- len(args) + len(kwargs)
-    else [0, 1, 1, 1, 2, 3, 4, 4, 5, 6, 7, 8, 8].getD a 9               -- ==-class of (args, json(kwargs))
 
 def showOptV : Option VId → String
   | none => "-"
